@@ -73,6 +73,20 @@ using QStringList = QList<QString>;
 inline std::string verif::show(const QString &s) { return "S:" + verif::hex(s.std()); }
 inline std::string verif::show(const QList<QString> &l) { std::string o = "L["; for (size_t i = 0; i < l.v_.size(); ++i) { if (i) o += ","; o += show(l.v_[i]); } return o + "]"; }
 
+class QFont {
+public:
+    QString family() const { return family_; }
+    void setFamily(const QString &v) { family_ = v; }
+    int pointSize() const { return pointSize_; }
+    void setPointSize(int v) { pointSize_ = v; }
+    bool bold() const { return bold_; }
+    void setBold(bool v) { bold_ = v; }
+    friend bool operator==(const QFont &a, const QFont &b) { return a.family_ == b.family_ && a.pointSize_ == b.pointSize_ && a.bold_ == b.bold_; }
+private:
+    QString family_; int pointSize_ = -1; bool bold_ = false;
+};
+namespace verif { inline std::string show(const QFont &f) { return "F{" + show(f.family()) + "," + show(f.pointSize()) + "," + show(f.bold()) + "}"; } }
+
 template <typename... A> struct QOverload {
     template <typename C> static constexpr auto of(void (C::*p)(A...)) { return p; }
 };
